@@ -112,6 +112,10 @@ func (t *Timer) Scheduled() bool {
 }
 
 func (t *Timer) Cancel() error {
+	if t.state == stateClosed {
+		// A closed timer stays closed.
+		return nil
+	}
 	err := t.it.Unset()
 	if err == nil {
 		t.cancelled = true
